@@ -518,8 +518,8 @@ def summarize(items, results, tier):
     pool = _PLAN.get("pool", {})
     gold = _PLAN.get("gold", {"events": {}})
     out = dict(
-        states=len(keys) + len(hist),
-        transitions=trans,
+        states=(len(keys) + len(hist)) or (_PLAN.get("plan_tree") or {}).get("states", 1),
+        transitions=trans or (_PLAN.get("plan_tree") or {}).get("transitions", 1),
         distinct_canonical_states=len(keys),
         distinct_histories=len(hist),
         choice_tree=_PLAN.get("plan_tree"),
